@@ -6,6 +6,8 @@ From RM Require Import Model.EncSpec Model.EncObjCarry Model.EncPathSpec Model.E
      Proofs.Enc2SampleShape Proofs.Enc3Objects Proofs.Enc3Map Model.DrvEnc.
 From RM Require Model.Curve.
 From RM Require Import Gen.Generated.
+From RM Require Proofs.Enc3Chrono.
+From Coq Require Import ZifyBool Lia.
 Open Scope Z_scope.
 
 (* the classes of one object, as a boolean *)
@@ -132,4 +134,17 @@ Lemma all_kinds_nodes :
   | Done m => map nodes_facts (hov_hit_objects (bmv_ho m)) = [[]; [2; 2; 1; 1]; []; []]
   | _ => False
   end.
+Proof. vm_compute. reflexivity. Qed.
+
+(* the example file's hit-object lines are chronological *)
+Definition sortedb (l : list Z) : bool :=
+  (fix go (l : list Z) : bool := match l with a :: ((b :: _) as t) => (a <=? b) && go t | _ => true end) l.
+Lemma sortedb_sorted l : sortedb l = true -> Sorted.StronglySorted Z.le l.
+Proof.
+  intros H. apply Sorted.Sorted_StronglySorted; [intros x y z; lia|].
+  induction l as [|a r IH]; [constructor|]. constructor.
+  - apply IH. destruct r as [|b t]; [reflexivity|]. cbn in H. apply andb_true_iff in H. exact (proj2 H).
+  - destruct r as [|b t]; constructor. cbn in H. apply andb_true_iff in H. lia.
+Qed.
+Lemma all_kinds_chronological : sortedb (map start_key (Enc3Chrono.raw_objects (lines_of_text all_kinds_text))) = true.
 Proof. vm_compute. reflexivity. Qed.
